@@ -70,6 +70,10 @@ Allowed_C17(ps, e) ==
            \* without max_capacity nothing is evicted for size; without a weigher every entry weighs 1
            /\ (ps.cfg.cap = None /\ ~Dead(ps.cfg)) => (e.obs.c1 /\ e.obs.c2 /\ e.obs.c3 /\ e.obs.ec = 3)
            /\ (~ps.cfg.weigher /\ ~Dead(ps.cfg)) => e.obs.ws = e.obs.ec
+           \* ... and with a weigher (with or without max_capacity) every entry weighs what it says
+           /\ ~Dead(ps.cfg) =>
+                 e.obs.ws = (IF e.obs.c1 THEN WeightOf(ps.cfg, 10) ELSE 0) + (IF e.obs.c2 THEN WeightOf(ps.cfg, 20) ELSE 0)
+                            + (IF e.obs.c3 THEN WeightOf(ps.cfg, 30) ELSE 0)
            /\ ~e.obs.c2after
       [] e.ev = "Twin" ->
            \* initial_capacity has no observable effect; new(n) = builder().max_capacity(n).build()
